@@ -302,6 +302,28 @@ func (r *runner) report(ec *exprCase, got, want, src string) {
 			break
 		}
 	}
+	// then replace sub-trees by single operands as long as the case still fails
+	for changed := true; changed; {
+		changed = false
+		var subs []*node
+		collectOps(cur.tree, &subs)
+		for _, sub := range subs {
+			if sub == cur.tree {
+				continue
+			}
+			repl, ok := leafFor(sub, cur.mode)
+			if !ok {
+				continue
+			}
+			cand := *cur
+			cand.tree = cloneReplacing(cur.tree, sub, repl)
+			if ok, g, w, s := r.single(&cand); !ok {
+				cur, got, want, src = &cand, g, w, s
+				changed = true
+				break
+			}
+		}
+	}
 	// restore leaf numbering of the reported tree
 	var ls []*node
 	cur.tree.leaves(&ls)
@@ -360,7 +382,7 @@ func runExpr(c *vp.Child) {
 	if c.Thorough() {
 		n3 := shapeCount(3)
 		rnd := c.Rand("depth3")
-		per := 320000 / c.NB
+		per := 200000 / c.NB
 		for i := 0; i < per; i++ {
 			idx := n2 + rnd.Int63n(n3-n2)
 			r.tree(idx, shapeAt(idx, 3))
@@ -398,21 +420,59 @@ func (r *runner) tree(idx int64, shape *node) {
 		shape.leaves(&ls)
 		// choose the operands
 		if mode == "sym" {
-			for _, l := range ls {
-				switch rnd.Intn(8) {
-				case 0:
-					l.val = plain(nm.I(int64(1 + rnd.Intn(3))))
-				case 1:
-					l.val = plain([]nm.V{nm.S("s"), nm.B(true), nm.NilV, nm.B(false)}[rnd.Intn(4)])
-				default:
-					l.val = mval{sym: true, id: l.idx, name: varNames[l.idx]}
-				}
+			// symbolic operands, a few plain ones mixed in; of three draws keep the
+			// one whose term tells most alternative parses apart
+			type symCand struct {
+				vals       []mval
+				alts, dist int
+				score      float64
 			}
-			if o := modelOutcome(shape); o.st == nm.Skip {
+			var best *symCand
+			for t := 0; t < 3; t++ {
 				for _, l := range ls {
-					l.val = mval{sym: true, id: l.idx, name: varNames[l.idx]}
+					switch {
+					case t == 2:
+						l.val = mval{sym: true, id: l.idx, name: varNames[l.idx]}
+					case rnd.Intn(8) == 0:
+						l.val = plain(nm.I(int64(1 + rnd.Intn(3))))
+					case rnd.Intn(8) == 0:
+						l.val = plain([]nm.V{nm.S("s"), nm.B(true), nm.NilV, nm.B(false)}[rnd.Intn(4)])
+					default:
+						l.val = mval{sym: true, id: l.idx, name: varNames[l.idx]}
+					}
+				}
+				o := modelOutcome(shape)
+				cd := &symCand{}
+				if o.st == nm.Skip {
+					cd.score = -1
+				} else {
+					cd.alts, cd.dist = sensitivity(shape, o)
+					cd.score = 1
+					if cd.alts > 0 {
+						cd.score = float64(cd.dist) / float64(cd.alts)
+					}
+					if o.st == nm.Err {
+						cd.score -= 0.6
+					}
+				}
+				for _, l := range ls {
+					cd.vals = append(cd.vals, l.val)
+				}
+				if best == nil || cd.score > best.score {
+					best = cd
+				}
+				if cd.score >= 1 {
+					break
 				}
 			}
+			for i, l := range ls {
+				l.val = best.vals[i]
+			}
+			if o := modelOutcome(shape); o.st == nm.Err {
+				c.Feature("sym: expected-error trees", 1)
+			}
+			c.Feature("sym: alternative parses of the same tokens", int64(best.alts))
+			c.Feature("sym: alternative parses giving a different term/outcome", int64(best.dist))
 		} else {
 			type cand struct {
 				vals        []mval
@@ -502,4 +562,57 @@ func (r *runner) tree(idx int64, shape *node) {
 				"chunk": srcs[len(srcs)-2], "expected": wants[len(wants)-2], "observed": got[len(got)-2]})
 		}
 	}
+}
+
+// collectOps lists the operator nodes of a tree (outermost first).
+func collectOps(n *node, out *[]*node) {
+	if n.op == "" {
+		return
+	}
+	*out = append(*out, n)
+	for _, k := range n.kids {
+		collectOps(k, out)
+	}
+}
+
+// leafFor returns a single operand standing for the sub-tree: a fresh symbolic
+// operand in sym mode, the sub-tree's value otherwise (when it has one that can
+// be written down).
+func leafFor(sub *node, mode string) (*node, bool) {
+	if mode == "sym" {
+		return &node{val: mval{sym: true}}, true
+	}
+	e := &evaluator{}
+	v, st := e.eval(sub)
+	if st != nm.Val || v.sym {
+		return nil, false
+	}
+	if mode == "lit" {
+		switch v.v.K {
+		case nm.Int:
+			if v.v.I < 0 {
+				return nil, false
+			}
+		case nm.Float:
+			if v.v.F < 0 || v.v.F != v.v.F || v.v.F > 1e300 || (v.v.F == 0 && 1/v.v.F < 0) {
+				return nil, false
+			}
+		}
+	}
+	if v.v.K == nm.Float && (v.v.F != v.v.F || v.v.F > 1e300 || v.v.F < -1e300) {
+		return nil, false
+	}
+	return &node{val: v}, true
+}
+
+func cloneReplacing(n, target, repl *node) *node {
+	if n == target {
+		return repl
+	}
+	c := *n
+	c.kids = nil
+	for _, k := range n.kids {
+		c.kids = append(c.kids, cloneReplacing(k, target, repl))
+	}
+	return &c
 }
